@@ -168,9 +168,9 @@ mutual
           obtain ⟨hc, hs⟩ := h
           rw [CanonM] at hc
           rw [Renders]
-          refine ⟨quoteKey k, toks ff e, unsp (piecesMap ff r false), hc.1, slot_plain ff pf e (renders_toks e hc.2.1),
+          refine ⟨quoteString k, toks ff e, unsp (piecesMap ff r false), hc.1, slot_plain ff pf e (renders_toks e hc.2.1),
             renders_entries r hc.2.2, hs, ?_⟩
-          simp [toks, pieces, piecesMap, unsp, unsp_append, quoteKey]
+          simp [toks, pieces, piecesMap, unsp, unsp_append]
     | .dataRef _ k acc, h => by
         rw [Canon] at h
         rw [Renders]
@@ -227,8 +227,8 @@ mutual
     | .cons k e r, h => by
         rw [CanonM] at h
         rw [RendersEntries]
-        refine ⟨quoteKey k, toks ff e, _, h.1, slot_plain ff pf e (renders_toks e h.2.1), renders_entries r h.2.2, ?_⟩
-        simp [toks, piecesMap, unsp, unsp_append, quoteKey]
+        refine ⟨quoteString k, toks ff e, _, h.1, slot_plain ff pf e (renders_toks e h.2.1), renders_entries r h.2.2, ?_⟩
+        simp [toks, piecesMap, unsp, unsp_append]
   theorem renders_accs : (l : AccessList) → CanonAL ff pf l → RendersAccs pf l (unsp (piecesAccs ff l))
     | .nil, _ => by simp [piecesAccs, unsp, RendersAccs]
     | .cons a r, h => by
